@@ -348,6 +348,43 @@ fn kv<'a>(tok: &'a str, key: &str) -> &'a str {
     tok.strip_prefix(key).and_then(|r| r.strip_prefix('=')).unwrap_or_else(|| panic!("malformed op: expected {}=…, got {}", key, tok))
 }
 
+
+/// A node whose store has the freezer enabled.  `Node::start_with_ancient` passes the ancient path
+/// but `build_store` only opens the freezer when `StoreConfig::freezer_enable` is set, which node.rs
+/// does not do; so the `Shared` / chain service of a throw-away node are replaced by ones built here
+/// (same builder calls as node.rs plus the store config).
+pub fn start_freezer_node(dir: &std::path::Path, ancient: &std::path::Path, consensus: ckb_chain_spec::consensus::Consensus, cfg: &NodeCfg) -> Node {
+    use ckb_app_config::{BlockAssemblerConfig, StoreConfig};
+    let scratch = dir.parent().unwrap().join("throwaway-node");
+    let _ = std::fs::remove_dir_all(&scratch);
+    let mut node = Node::start(&scratch, consensus.clone(), cfg);
+    std::fs::create_dir_all(dir.join("header_map")).unwrap();
+    let db_config = ckb_app_config::DBConfig { path: dir.join("db"), ..Default::default() };
+    let builder = ckb_shared::SharedBuilder::new("verif", dir, &db_config, Some(ancient.to_path_buf()), runtime_handle(), consensus.clone())
+        .unwrap_or_else(|e| panic!("SharedBuilder::new failed: {e:?}"))
+        .header_map_tmp_dir(Some(dir.join("header_map")))
+        .store_config(StoreConfig { freezer_enable: true, ..Default::default() });
+    let ba = BlockAssemblerConfig {
+        code_hash: ckb_types::h256!("0x0"),
+        args: Default::default(),
+        hash_type: ckb_jsonrpc_types::ScriptHashType::Data,
+        message: Default::default(),
+        use_binary_version_as_message_prefix: false,
+        binary_version: "TEST".to_string(),
+        update_interval_millis: 800,
+        notify: vec![],
+        notify_scripts: vec![],
+        notify_timeout_millis: 800,
+    };
+    let (shared, mut pack) = builder.block_assembler_config(Some(ba)).build().unwrap_or_else(|e| panic!("SharedBuilder::build failed: {e:?}"));
+    let chain = ckb_chain::ChainServiceScope::new(pack.take_chain_services_builder());
+    node.chain = Some(chain);
+    node.shared = shared;
+    node.dir = dir.to_path_buf();
+    let _ = std::fs::remove_dir_all(&scratch);
+    node
+}
+
 // ------------------------------------------------------------------------------------------------
 // executor: op lines -> real node
 // ------------------------------------------------------------------------------------------------
@@ -359,12 +396,14 @@ struct Reader {
 }
 
 pub struct Exec<'a> {
-    out: &'a mut Out,
-    base: PathBuf,
-    case_no: u64,
-    cfg: NodeCfg,
-    node: Option<Node>,
-    builder: Option<ChainBuilder>,
+    pub out: &'a mut Out,
+    pub base: PathBuf,
+    pub case_no: u64,
+    pub cfg: NodeCfg,
+    pub node: Option<Node>,
+    pub builder: Option<ChainBuilder>,
+    /// start the node with a freezer ("ancient") directory (used by C10)
+    pub ancient: bool,
     pub ids: Ids,
     pub ablocks: HashMap<u64, ABlock>,
     pub atxs: HashMap<u64, ATx>,
@@ -386,6 +425,7 @@ impl<'a> Exec<'a> {
             cfg: NodeCfg::default(),
             node: None,
             builder: None,
+            ancient: false,
             ids: Ids::default(),
             ablocks: HashMap::new(),
             atxs: HashMap::new(),
@@ -585,7 +625,11 @@ impl<'a> Exec<'a> {
                 let dir = self.base.join(format!("case-{}", self.case_no));
                 let _ = std::fs::remove_dir_all(&dir);
                 self.gdiff = consensus.genesis_block().difficulty();
-                self.node = Some(Node::start(&dir.join("node"), consensus.clone(), &cfg));
+                self.node = Some(if self.ancient {
+                    start_freezer_node(&dir.join("node"), &dir.join("ancient"), consensus.clone(), &cfg)
+                } else {
+                    Node::start(&dir.join("node"), consensus.clone(), &cfg)
+                });
                 let mut b = ChainBuilder::new(consensus.clone(), &dir.join("builder"));
                 b.max_branch_stores = 8;
                 self.builder = Some(b);
@@ -717,6 +761,21 @@ impl<'a> Exec<'a> {
     pub fn n_state_ops(&self) -> usize {
         self.snaps.len()
     }
+
+    /// stop the node (dropping every snapshot that pins the database) and open it again
+    pub fn restart(&mut self) {
+        if let Some(mut r) = self.reader.take() {
+            r.stop.store(true, Ordering::Relaxed);
+            r.jh.take().unwrap().join().unwrap();
+        }
+        self.snaps.clear();
+        let node = self.node.take().expect("node");
+        let (dir, consensus) = (node.dir.clone(), node.consensus.clone());
+        node.stop();
+        let anc = dir.parent().unwrap().join("ancient");
+        self.node = Some(if self.ancient { start_freezer_node(&dir, &anc, consensus, &self.cfg) } else { Node::start(&dir, consensus, &self.cfg) });
+        self.start_reader();
+    }
 }
 
 // ------------------------------------------------------------------------------------------------
@@ -731,11 +790,11 @@ struct Ctx {
     uncled: HashSet<u64>,
 }
 
-struct Gen {
-    next_tx: u64,
-    next_blk: u64,
-    l: u64,
-    w: (u64, u64),
+pub struct Gen {
+    pub next_tx: u64,
+    pub next_blk: u64,
+    pub l: u64,
+    pub w: (u64, u64),
 }
 
 impl Gen {
@@ -781,7 +840,7 @@ impl Gen {
     }
 
     /// emit (tx lines +) one block line on `parent`; returns the block id
-    fn build(&mut self, ex: &mut Exec, rng: &mut Rng, parent: u64, busy: bool) -> u64 {
+    pub fn build(&mut self, ex: &mut Exec, rng: &mut Rng, parent: u64, busy: bool) -> u64 {
         let c = self.ctx(ex, parent);
         let n = ex.ablocks[&parent].number + 1;
         let (wc, wf) = self.w;
@@ -887,10 +946,10 @@ impl Gen {
 }
 
 impl Exec<'_> {
-    fn out_count(&mut self, k: &str) {
+    pub fn out_count(&mut self, k: &str) {
         self.out.count(k);
     }
-    fn ancestor(&self, mut b: u64, back: u64) -> u64 {
+    pub fn ancestor(&self, mut b: u64, back: u64) -> u64 {
         for _ in 0..back {
             if b == 0 {
                 break;
